@@ -109,6 +109,17 @@ var registry = []Harness{
 	{Prop: "C18", Unwind: 300, Pkg: "nns", Func: "VerifC18TLD", Link: []string{"nns"},
 		Quick: [][]int{{1}, {2}, {3}, {4}, {16}, {17}},
 		Bound: "isAvailable(s) and registerTLD(s) by the committee for every dot-free string s of the length given by the param, on an NNS without TLDs"},
+	{Prop: "C19", Pkg: "neofs", Func: "VerifC19Deposit", Link: []string{"neofs", "processing"},
+		Quick: [][]int{{1, 0}, {1, 20}, {1, 7}, {0, 20}, {1, 2}}, Thorough: [][]int{{1, 0}, {1, 20}, {1, 7}, {0, 20}, {0, 0}, {1, 2}, {1, 19}, {1, 21}, {0, 7}},
+		Bound: "one GAS transfer user->NeoFS with symbolic amount in Z, symbolic funds 0..20000 GAS, symbolic user witness, receiver data of length param 1 (all bytes symbolic); param 0: Notary mode; plus one direct call of onNEP17Payment"},
+	{Prop: "C19", Pkg: "neofs", Func: "VerifC19Accounting", Link: []string{"neofs", "processing"},
+		Quick: [][]int{{1, 1}, {0, 1}, {0, 3}}, Thorough: [][]int{{1, 1}, {1, 4}, {0, 1}, {0, 3}, {0, 4}, {0, 7}},
+		Bound: "deposit, withdraw request, candidate registration, cheque with symbolic amounts/fees/funds/witnesses; param 0: Notary mode, param 1: number of stored Alphabet keys (the cheque is asserted with Notary or one key)"},
+	{Prop: "C19", Pkg: "alphabet", Func: "VerifC19Emit", Link: []string{"alphabet", "proxy"},
+		Quick: [][]int{{1, 1, 0}, {1, 3, 0}, {4, 3, 2}, {4, 7, 0}}, Thorough: [][]int{{1, 1, 0}, {1, 2, 0}, {1, 3, 0}, {4, 3, 2}, {4, 7, 0}, {7, 5, 6}, {7, 4, 3}, {4, 6, 1}},
+		Bound: "committee size param 0, Inner Ring size param 1, Alphabet contract index param 2; contract balance g symbolic 0..10^12; invoker symbolic (any committee member or a stranger); native GAS ledger stub (DESIGN.md 2.3)"},
+	{Prop: "C19", Pkg: "alphabet", Func: "VerifC19Payments", Link: []string{"alphabet", "proxy", "processing", "neofs"},
+		Bound: "GAS transfers of a symbolic amount 0..1000 to Proxy, Processing and Alphabet; direct calls of their onNEP17Payment"},
 }
 
 func ipv4Shapes() [][]int {
@@ -136,3 +147,4 @@ func allTriples(n int) [][]int {
 	}
 	return out
 }
+
